@@ -361,8 +361,13 @@ class WriteStreamEnv(EnvClass):
 
     def __init__(self, zero_time=False):
         self.methods = {"send": is_async(self.send), "aclose": is_async(self.aclose),
-                        "send_nowait": self.send_nowait}
+                        "send_nowait": self.send_nowait, "clone": self.clone}
         self.zero_time = zero_time      # buffered stream with room: send completes without virtual delay
+
+    def clone(self, I, recv, args, kwargs):
+        """clone(): ANOTHER send end of the same channel - a distinct object; the channel only ends for its receiver
+        when every send end has been closed"""
+        return new_env_object(I, self, written=V.VList([]), attempted=V.VList([]), closed=V.FALSE)
 
     def send(self, I, recv, args, kwargs):
         att = Val.items(gfield(I, recv, "attempted"))
